@@ -798,7 +798,7 @@ PIPE_AGG = {'reduce_assoc': 0, 'group_by_reduce': 1, 'group_by_sum': 2, 'group_b
             'group_by_min_element': 5, 'group_by_max_element': 6}
 
 
-def _native_two_phase(ex, builder, op, vals, where, nparts):
+def _native_two_phase(ex, builder, op, vals, where, nparts, arrival):
     """public-API replay (kind `pipe_agg`): the real job with the witness' values produced by the witness' replicas
     (one source replica per pre-aggregating replica), the real builder, wrapping add / min / max as user function"""
     from mirsym.executor import RustPanic
@@ -806,6 +806,10 @@ def _native_two_phase(ex, builder, op, vals, where, nparts):
     args = [nparts, PIPE_AGG[builder], {'add': 0, 'min': 1, 'max': 2}[op], len(xs)]
     for x, p in zip(xs, where):
         args += [x, p]
+    delays = [0] * nparts
+    for pos, part in enumerate(arrival):
+        delays[part] = 200 * pos          # the partial results arrive 200 ms apart, in the witness' order
+    args += delays
     runner, prof = ex.env['native']
     ex.env['native_used'] = True
     txt = runner('pipe_agg', args)[prof]
@@ -853,7 +857,12 @@ def two_phase_harness(w, builder, op, nvals, nparts):
             where.append(ex.choose(nparts, 'local replica'))
             parts[where[-1]].append(v)
         if ex.env.get('native'):
-            return _native_two_phase(ex, builder, op, vals, where, nparts)
+            # arrival order of the partial results at the global fold, as chosen on the witness path
+            nonempty = [i for i in range(nparts) if parts[i]]
+            order, arrival = list(range(len(nonempty))), []
+            while order:
+                arrival.append(nonempty[order.pop(ex.choose(len(order), 'arrival at the global fold') if len(order) > 1 else 0)])
+            return _native_two_phase(ex, builder, op, vals, where, nparts, arrival)
 
         def fold(closure, init, xs):
             acc = [w.clone_value(ex, init)]
@@ -870,7 +879,19 @@ def two_phase_harness(w, builder, op, nvals, nparts):
         sx = lambda: {'builder': builder, 'op': op, 'parts': [[repr(v) for v in p] for p in parts],
                       'two_phase': repr(two), 'one_phase': repr(one)}
         from mirsym.models import values_eq
-        check(ex, zbool(values_eq(ex, two, one)), 'pre-aggregated (two-phase) result differs from the one-phase result', sx)
+        if kind == 'avg':
+            # the observable result is sum / count: compare the quotients (cross-multiplied, no overflow: values < 2^32,
+            # counts <= nvals), not the internal (sum, count) pairs -- a witness must show a different average
+            (s2, c2), (s1, c1) = two.fields, one.fields
+            z2 = lambda x: z3.ZeroExt(64, x.z())
+            some2, some1 = isinstance(s2, Enum) and s2.variant == 'Some', isinstance(s1, Enum) and s1.variant == 'Some'
+            if some2 != some1:
+                raise Violation('pre-aggregated (two-phase) average is %s, one-phase is %s' % (s2, s1), hlib._wit(ex), sx())
+            if some2:
+                check(ex, z2(s2.fields[0]) * z2(c1) == z2(s1.fields[0]) * z2(c2),
+                      'pre-aggregated (two-phase) result differs from the one-phase result', sx)
+        else:
+            check(ex, zbool(values_eq(ex, two, one)), 'pre-aggregated (two-phase) result differs from the one-phase result', sx)
         # and the one-phase result is the sequential aggregate
         zs = [v.z() for v in vals]
         if kind in ('reduce', 'sum', 'min', 'max'):
@@ -887,7 +908,8 @@ def two_phase_harness(w, builder, op, nvals, nparts):
             acc = zs[0]
             for z in zs[1:]:
                 acc = acc + z
-            check(ex, z3.And(s_.fields[0].z() == acc, c_.z() == nvals), 'avg accumulates a wrong (sum, count)', sx)
+            check(ex, z3.ZeroExt(64, s_.fields[0].z()) * z3.ZeroExt(64, z3.BitVecVal(nvals, 64)) ==
+                  z3.ZeroExt(64, acc) * z3.ZeroExt(64, c_.z()), 'avg differs from sum / count of the values', sx)
         if len(locals_) > 1:
             hlib.cover(ex, 'several_partitions')
         return sx()
